@@ -115,6 +115,7 @@ class WhenProp:
                 val = 0
             cases.append((tzname, now, kind, val, form))
         lines_by_zone: dict[str, list] = {}
+        pending: dict = {}
         for tzname, now, kind, val, form in cases:
             set_tz(tzname)
             whenever._patch_time_frozen(instant_of_ns(now))
@@ -182,14 +183,19 @@ class WhenProp:
                     msg = (f'time of day {val} ns at now={now} in {tzname} gave {res}; the next instant at which the local clock '
                            f'shows that time is {want}')
             if msg:
-                run.findings.append(Finding('oracle', f'[zone {tzname}] {msg}',
-                                            {'component': 'when', 'tz': tzname, 'now': now, 'kind': kind, 'val': val, 'form': form},
-                                            self.known(tzname, now, kind, val, res)))
+                f = Finding('oracle', f'[zone {tzname}] {msg}',
+                            {'component': 'when', 'tz': tzname, 'now': now, 'kind': kind, 'val': val, 'form': form},
+                            self.known(tzname, now, kind, val, res))
+                pending[(tzname, now, kind, val, form)] = f
+                run.findings.append(f)
             mk = {'postd': f'postd {val}'}.get(kind, f'getinstant {now} {kind} {val}')
             lines_by_zone.setdefault(tzname, []).append((mk, res, (tzname, now, kind, val, form)))
         for tzname, items in lines_by_zone.items():
             model = [b[0] if b else '' for b in run_model([zone_line(tzname)] + [m for m, _, _ in items])[1:]]
             run.traces_validated += 1
+            for (m, res, key), b in zip(items, model):
+                if res != b and key in pending:
+                    pending[key].signature = None      # not the recorded finding: the model does not predict this answer
             for (m, res, key), b in zip(items, model):
                 if res != b:
                     run.findings.append(Finding('correspondence', f'get_instant model and code differ in zone {tzname} for {m}: code {res} / model {b}',
